@@ -62,6 +62,7 @@ package decode
 //@   ensures[C10] len(b) > 0 && t != 10 && t != 11 && t != 12 ==> result2 != nil
 //@   canary[C10] result2 == nil ==> result1 <= 3
 //@   noalloc[C17]
+//@   ensures[C16] result2 != nil ==> result0 == 0 // zero value on error (accessors that discard the error return it)
 
 //@ func DecodeInt32
 //@   safety[C02]
@@ -80,6 +81,7 @@ package decode
 //@   ensures[C10] len(b) > 0 && t != 10 && t != 11 && t != 12 ==> result2 != nil
 //@   canary[C10] result2 == nil ==> result1 <= 3
 //@   noalloc[C17]
+//@   ensures[C16] result2 != nil ==> result0 == 0 // zero value on error (accessors that discard the error return it)
 
 //@ func DecodeInt64
 //@   safety[C02]
@@ -97,6 +99,7 @@ package decode
 //@   ensures[C10] len(b) > 0 && t != 10 && t != 11 && t != 12 ==> result2 != nil
 //@   canary[C10] result2 == nil ==> result1 <= 5
 //@   noalloc[C17]
+//@   ensures[C16] result2 != nil ==> result0 == 0 // zero value on error (accessors that discard the error return it)
 
 //@ func DecodeUint16
 //@   safety[C02]
@@ -115,6 +118,7 @@ package decode
 //@   ensures[C10] len(b) > 0 && t != 20 && t != 21 && t != 22 ==> result2 != nil
 //@   canary[C10] result2 == nil ==> result1 <= 3
 //@   noalloc[C17]
+//@   ensures[C16] result2 != nil ==> result0 == 0 // zero value on error (accessors that discard the error return it)
 
 //@ func DecodeUint32
 //@   safety[C02]
@@ -133,6 +137,7 @@ package decode
 //@   ensures[C10] len(b) > 0 && t != 20 && t != 21 && t != 22 ==> result2 != nil
 //@   canary[C10] result2 == nil ==> result1 <= 3
 //@   noalloc[C17]
+//@   ensures[C16] result2 != nil ==> result0 == 0 // zero value on error (accessors that discard the error return it)
 
 //@ func DecodeUint64
 //@   safety[C02]
@@ -150,6 +155,7 @@ package decode
 //@   ensures[C10] len(b) > 0 && t != 20 && t != 21 && t != 22 ==> result2 != nil
 //@   canary[C10] result2 == nil ==> result1 <= 5
 //@   noalloc[C17]
+//@   ensures[C16] result2 != nil ==> result0 == 0 // zero value on error (accessors that discard the error return it)
 
 // ---- byte, bool
 
@@ -163,6 +169,7 @@ package decode
 //@   ensures[C10] len(b) > 0 && (b[len(b)-1] != 3 || len(b) < 2) ==> result2 != nil
 //@   canary[C10] result2 == nil ==> result0 == 0
 //@   noalloc[C17]
+//@   ensures[C16] result2 != nil ==> result0 == 0 // zero value on error (accessors that discard the error return it)
 
 //@ func DecodeBool
 //@   safety[C02]
@@ -172,6 +179,7 @@ package decode
 //@   ensures[C10] len(b) > 0 && b[len(b)-1] == 1 ==> result2 == nil && result0 == true && result1 == 1
 //@   ensures[C10] len(b) > 0 && b[len(b)-1] == 2 ==> result2 == nil && result0 == false && result1 == 1
 //@   noalloc[C17]
+//@   ensures[C16] result2 != nil ==> !result0 // zero value on error (accessors that discard the error return it)
 
 // ---- bytes, string, struct
 
@@ -200,6 +208,7 @@ package decode
 //@   ensures[C10] len(b) > 0 && (b[len(b)-1] != 50 || vs < 0) ==> err != nil
 //@   canary[C13] err == nil ==> size <= 300
 //@   noalloc[C17]
+//@   ensures[C16] result2 != nil ==> len(result0) == 0 // zero value on error (accessors that discard the error return it)
 
 //@ func DecodeString
 //@   safety[C02]
@@ -214,6 +223,7 @@ package decode
 //@   ensures[C10] len(b) > 0 && (b[len(b)-1] != 60 || vs < 0) ==> err != nil
 //@   canary[C13] err == nil ==> size <= 300
 //@   noalloc[C17]
+//@   ensures[C16] result2 != nil ==> len(result0) == 0 // zero value on error (accessors that discard the error return it)
 
 //@ func DecodeStruct
 //@   safety[C02]
@@ -226,6 +236,7 @@ package decode
 //@   ensures[C13] len(b) > 0 && b[len(b)-1] == 90 && vs > 0 ==> err == nil
 //@   canary[C13] err == nil ==> size <= 300
 //@   noalloc[C17]
+//@   ensures[C16] result2 != nil ==> result0 == 0 // zero value on error (accessors that discard the error return it)
 
 // ---- fixed-width binaries
 
